@@ -14,9 +14,9 @@ import z3
 
 from .sym import Infeasible, PathAbort, Unsupported, Sym, to_z3, set_cur, reset_names, wrap
 
-RLIMIT_BRANCH = 2_000_000
-RLIMIT_GOAL = 40_000_000
-TIMEOUT_MS = 60_000
+RLIMIT_BRANCH = 200_000
+RLIMIT_GOAL = 15_000_000
+TIMEOUT_MS = 20_000
 
 
 class Obligation:
